@@ -151,6 +151,22 @@ Theorem C08_histories_with_cursor_total : forall ops v it, dinv v -> is_response
 Proof. exact hops3_tol_total. Qed.
 Print Assumptions C08_histories_with_cursor_total.
 
+(** ... and from a freshly parsed response: the first insertion or recompute decompresses it, any history with cursor operations
+    follows (kept invariant on success of every step; with failing steps tolerated it runs to the end) *)
+Theorem C08_histories_from_parse_with_cursor : forall p v it o ops s1 s', bytes_ok p -> parse p = Ok v -> is_response p -> it_section it <> SQuestion ->
+  (o = H2Recompute \/ exists sec rx, o = H2Insert sec rx) -> hop2_ok o ->
+  run_hop2 o (v, it) = (s1, Ok tt) -> ok_along ops s1 -> run_hops3 ops s1 = (s', Ok tt) ->
+  dinv (fst s') /\ snd s' = it /\ is_response (pp_packet (fst s')).
+Proof. exact fresh_history3_dinv. Qed.
+Print Assumptions C08_histories_from_parse_with_cursor.
+
+Theorem C08_histories_from_parse_with_cursor_total : forall p v it o ops s1, bytes_ok p -> parse p = Ok v -> is_response p -> it_section it <> SQuestion ->
+  (o = H2Recompute \/ exists sec rx, o = H2Insert sec rx) -> hop2_ok o ->
+  run_hop2 o (v, it) = (s1, Ok tt) -> ok_along_tol ops s1 ->
+  exists s', run_hops3_tol ops s1 = (s', Ok tt) /\ dinv (fst s') /\ snd s' = it /\ is_response (pp_packet (fst s')).
+Proof. exact fresh_history3_total. Qed.
+Print Assumptions C08_histories_from_parse_with_cursor_total.
+
 Example C08_tolerant_cursor_run_means :
   (forall o ops s, run_hops3_tol (o :: ops) s =
      match run_hop3 o s with (s1, Ok _) => run_hops3_tol ops s1 | (s1, Err _) => run_hops3_tol ops s1 | (s1, Panic x) => (s1, Panic x) end) /\
